@@ -86,6 +86,21 @@ def run(ctx):
         get_citations(t)
     if json.dumps(W.serialise(keep), sort_keys=True) != before:
         ctx.violation(None, "a result returned earlier was modified by later calls", dict(stream="runtime", text=texts[2]))
+    # the arguments are not modified: option lists (with and without the html step, with plain and with markup text)
+    import copy as _copy
+    for steps0, kw in ([["all_whitespace"], dict(markup_text="<p>See <i>Foo</i> v. <i>Bar</i>, 1 U.S. 1. <i>Bar</i> at 5.</p>")],
+                       [["html", "all_whitespace"], dict(markup_text="<p>See <i>Foo</i> v. <i>Bar</i>, 1 U.S. 1.</p>")],
+                       [["all_whitespace", "underscores"], dict(plain_text="See  Foo v. Bar, 1 U.S. __ .")],
+                       [[], dict(plain_text="1 U.S. 1")]):
+        steps = _copy.copy(steps0)
+        try:
+            get_citations(clean_steps=steps, **kw)
+        except Exception:  # noqa
+            pass            # a raise is C04's subject; the arguments must be intact either way
+        ctx.count("argument immutability call")
+        if steps != steps0:
+            ctx.violation(None, f"get_citations modified the clean_steps list it was given: {steps0} -> {steps}",
+                          dict(stream="runtime", clean_steps=steps0, after=steps, kwargs={k: v for k, v in kw.items()}))
     # threads sharing the default tokenizer
     results = {}
 
